@@ -179,6 +179,32 @@ WORDS = [b"a", b"b", b"file", b"x.bin", b"dir", b"sub", b"\xc3\xa9t\xc3\xa9", b"
 BAD_COMPONENTS = [b"", b".", b"..", b"a/b", b"/abs", b"/", b"../x", b"x/..", b"a/", b"\xff\xfe", b"\xc0\xaf", b"\xed\xa0\x80", b"\xf4\x90\x80\x80", b"\xe2\x82"]
 U64 = 2**64
 
+def long_name(rng, plain=True):
+    """names whose byte length sits around 64 / 128 / 255 / 256 / 1024 with multi-byte characters placed so that they
+    straddle those offsets (fixed-size buffers and byte-offset slicing are classic places to break)"""
+    target = rng.choice([63, 64, 65, 66, 127, 128, 129, 254, 255, 256, 257, 1023, 1025]) + rng.range(-1, 2)
+    units = [b"a", b"\xc3\xa9", b"\xe6\x97\xa5", b"\xf0\x9f\x98\x80", b"b", b"\xc3\xb1"]
+    out = b""
+    first = rng.choice(units)
+    out += first
+    while len(out) < target:
+        out += rng.choice(units) if rng.chance(3, 4) else b"x"
+    if not plain:
+        k = rng.below(4)
+        if k == 0:
+            out = out + b"/x"
+        elif k == 1:
+            out = b"../" + out
+        elif k == 2:
+            pos = rng.below(len(out))
+            # keep UTF-8 valid: insert the separator at a character boundary
+            while pos < len(out) and (out[pos] & 0xC0) == 0x80:
+                pos += 1
+            out = out[:pos] + b"/" + out[pos:]
+        else:
+            out = b"/" + out
+    return out
+
 def gen_files(rng, maxfiles=5, maxlen=9):
     n = rng.range(1, maxfiles)
     files = []
@@ -251,6 +277,13 @@ def gen_meta(rng):
         # two files whose lengths sum past 2^64
         kw["files"] = [(U64 - 1, [b"big1"]), (rng.choice([1, 2, U64 - 1]), [b"big2"])]
         kw["piece_length"] = rng.choice([2**63, 2**62, U64 - 1]); kw["nhashes"] = rng.choice([2, 3, 4, 5]); tag = "sum exceeds u64"
+    elif defect == 17:
+        kw["name"] = long_name(rng, plain=rng.chance(1, 2)); tag = "long unicode name"
+    elif defect == 18 and multi:
+        i = rng.below(len(kw["files"])); f = kw["files"][i]
+        kw["files"][i] = (f[0], f[1][:-1] + [long_name(rng, plain=rng.chance(1, 2))]); tag = "long unicode path component"
+    elif defect == 19:
+        kw["name_utf8"] = long_name(rng, plain=rng.chance(1, 2)); tag = "long unicode name.utf-8"
     elif defect == 16:
         kw.pop("files", None); kw["length"] = rng.choice([U64 - 1, 2**63, 2**40])
         kw["piece_length"] = max(1, kw["length"] // rng.range(1, 5) + rng.range(0, 1))
